@@ -165,6 +165,172 @@ pub mod p_HeapByteArray32__UnlockedNA__use_result_of_munlock;
 pub mod p_HeapByteArray32__UnlockedNA__use_result_of_mprotect_readonly;
 pub mod p_HeapByteArray32__UnlockedNA__use_result_of_mprotect_readwrite;
 pub mod p_HeapByteArray32__UnlockedNA__use_result_of_mprotect_noaccess;
+pub mod p_HeapByteArray4096__LockedRW__read_as_slice;
+pub mod p_HeapByteArray4096__LockedRW__read_deref;
+pub mod p_HeapByteArray4096__LockedRW__read_as_ref;
+pub mod p_HeapByteArray4096__LockedRW__read_len;
+pub mod p_HeapByteArray4096__LockedRW__read_index;
+pub mod p_HeapByteArray4096__LockedRW__read_range;
+pub mod p_HeapByteArray4096__LockedRW__write_as_mut_slice;
+pub mod p_HeapByteArray4096__LockedRW__write_deref_mut;
+pub mod p_HeapByteArray4096__LockedRW__write_as_mut;
+pub mod p_HeapByteArray4096__LockedRW__write_copy_from_slice;
+pub mod p_HeapByteArray4096__LockedRW__write_index;
+pub mod p_HeapByteArray4096__LockedRW__write_fill;
+pub mod p_HeapByteArray4096__LockedRW__array_as_array;
+pub mod p_HeapByteArray4096__LockedRW__array_as_mut_array;
+pub mod p_HeapByteArray4096__LockedRW__t_munlock;
+pub mod p_HeapByteArray4096__LockedRW__t_mprotect_readonly;
+pub mod p_HeapByteArray4096__LockedRW__t_mprotect_readwrite;
+pub mod p_HeapByteArray4096__LockedRW__use_result_of_munlock;
+pub mod p_HeapByteArray4096__LockedRW__use_result_of_mprotect_readonly;
+pub mod p_HeapByteArray4096__LockedRW__use_result_of_mprotect_readwrite;
+pub mod p_HeapByteArray4096__LockedRO__read_as_slice;
+pub mod p_HeapByteArray4096__LockedRO__read_deref;
+pub mod p_HeapByteArray4096__LockedRO__read_as_ref;
+pub mod p_HeapByteArray4096__LockedRO__read_len;
+pub mod p_HeapByteArray4096__LockedRO__read_index;
+pub mod p_HeapByteArray4096__LockedRO__read_range;
+pub mod p_HeapByteArray4096__LockedRO__array_as_array;
+pub mod p_HeapByteArray4096__LockedRO__t_munlock;
+pub mod p_HeapByteArray4096__LockedRO__t_mprotect_readonly;
+pub mod p_HeapByteArray4096__LockedRO__t_mprotect_readwrite;
+pub mod p_HeapByteArray4096__LockedRO__use_result_of_munlock;
+pub mod p_HeapByteArray4096__LockedRO__use_result_of_mprotect_readonly;
+pub mod p_HeapByteArray4096__LockedRO__use_result_of_mprotect_readwrite;
+pub mod p_HeapByteArray4096__UnlockedRW__read_as_slice;
+pub mod p_HeapByteArray4096__UnlockedRW__read_deref;
+pub mod p_HeapByteArray4096__UnlockedRW__read_as_ref;
+pub mod p_HeapByteArray4096__UnlockedRW__read_len;
+pub mod p_HeapByteArray4096__UnlockedRW__read_index;
+pub mod p_HeapByteArray4096__UnlockedRW__read_range;
+pub mod p_HeapByteArray4096__UnlockedRW__write_as_mut_slice;
+pub mod p_HeapByteArray4096__UnlockedRW__write_deref_mut;
+pub mod p_HeapByteArray4096__UnlockedRW__write_as_mut;
+pub mod p_HeapByteArray4096__UnlockedRW__write_copy_from_slice;
+pub mod p_HeapByteArray4096__UnlockedRW__write_index;
+pub mod p_HeapByteArray4096__UnlockedRW__write_fill;
+pub mod p_HeapByteArray4096__UnlockedRW__array_as_array;
+pub mod p_HeapByteArray4096__UnlockedRW__array_as_mut_array;
+pub mod p_HeapByteArray4096__UnlockedRW__clone;
+pub mod p_HeapByteArray4096__UnlockedRW__t_mlock;
+pub mod p_HeapByteArray4096__UnlockedRW__t_munlock;
+pub mod p_HeapByteArray4096__UnlockedRW__t_mprotect_readonly;
+pub mod p_HeapByteArray4096__UnlockedRW__t_mprotect_readwrite;
+pub mod p_HeapByteArray4096__UnlockedRW__t_mprotect_noaccess;
+pub mod p_HeapByteArray4096__UnlockedRW__use_result_of_munlock;
+pub mod p_HeapByteArray4096__UnlockedRW__use_result_of_mprotect_readonly;
+pub mod p_HeapByteArray4096__UnlockedRW__use_result_of_mprotect_readwrite;
+pub mod p_HeapByteArray4096__UnlockedRW__use_result_of_mlock;
+pub mod p_HeapByteArray4096__UnlockedRW__use_result_of_mprotect_noaccess;
+pub mod p_HeapByteArray4096__UnlockedRO__read_as_slice;
+pub mod p_HeapByteArray4096__UnlockedRO__read_deref;
+pub mod p_HeapByteArray4096__UnlockedRO__read_as_ref;
+pub mod p_HeapByteArray4096__UnlockedRO__read_len;
+pub mod p_HeapByteArray4096__UnlockedRO__read_index;
+pub mod p_HeapByteArray4096__UnlockedRO__read_range;
+pub mod p_HeapByteArray4096__UnlockedRO__array_as_array;
+pub mod p_HeapByteArray4096__UnlockedRO__clone;
+pub mod p_HeapByteArray4096__UnlockedRO__t_mlock;
+pub mod p_HeapByteArray4096__UnlockedRO__t_munlock;
+pub mod p_HeapByteArray4096__UnlockedRO__t_mprotect_readonly;
+pub mod p_HeapByteArray4096__UnlockedRO__t_mprotect_readwrite;
+pub mod p_HeapByteArray4096__UnlockedRO__t_mprotect_noaccess;
+pub mod p_HeapByteArray4096__UnlockedRO__use_result_of_munlock;
+pub mod p_HeapByteArray4096__UnlockedRO__use_result_of_mprotect_readonly;
+pub mod p_HeapByteArray4096__UnlockedRO__use_result_of_mprotect_readwrite;
+pub mod p_HeapByteArray4096__UnlockedRO__use_result_of_mlock;
+pub mod p_HeapByteArray4096__UnlockedRO__use_result_of_mprotect_noaccess;
+pub mod p_HeapByteArray4096__UnlockedNA__t_munlock;
+pub mod p_HeapByteArray4096__UnlockedNA__t_mprotect_readonly;
+pub mod p_HeapByteArray4096__UnlockedNA__t_mprotect_readwrite;
+pub mod p_HeapByteArray4096__UnlockedNA__t_mprotect_noaccess;
+pub mod p_HeapByteArray4096__UnlockedNA__use_result_of_munlock;
+pub mod p_HeapByteArray4096__UnlockedNA__use_result_of_mprotect_readonly;
+pub mod p_HeapByteArray4096__UnlockedNA__use_result_of_mprotect_readwrite;
+pub mod p_HeapByteArray4096__UnlockedNA__use_result_of_mprotect_noaccess;
+pub mod p_HeapBytesPagePlusSpare__LockedRW__read_as_slice;
+pub mod p_HeapBytesPagePlusSpare__LockedRW__read_deref;
+pub mod p_HeapBytesPagePlusSpare__LockedRW__read_as_ref;
+pub mod p_HeapBytesPagePlusSpare__LockedRW__read_len;
+pub mod p_HeapBytesPagePlusSpare__LockedRW__read_index;
+pub mod p_HeapBytesPagePlusSpare__LockedRW__read_range;
+pub mod p_HeapBytesPagePlusSpare__LockedRW__write_as_mut_slice;
+pub mod p_HeapBytesPagePlusSpare__LockedRW__write_deref_mut;
+pub mod p_HeapBytesPagePlusSpare__LockedRW__write_as_mut;
+pub mod p_HeapBytesPagePlusSpare__LockedRW__write_copy_from_slice;
+pub mod p_HeapBytesPagePlusSpare__LockedRW__write_index;
+pub mod p_HeapBytesPagePlusSpare__LockedRW__write_fill;
+pub mod p_HeapBytesPagePlusSpare__LockedRW__resize;
+pub mod p_HeapBytesPagePlusSpare__LockedRW__clone;
+pub mod p_HeapBytesPagePlusSpare__LockedRW__t_munlock;
+pub mod p_HeapBytesPagePlusSpare__LockedRW__t_mprotect_readonly;
+pub mod p_HeapBytesPagePlusSpare__LockedRW__t_mprotect_readwrite;
+pub mod p_HeapBytesPagePlusSpare__LockedRW__use_result_of_munlock;
+pub mod p_HeapBytesPagePlusSpare__LockedRW__use_result_of_mprotect_readonly;
+pub mod p_HeapBytesPagePlusSpare__LockedRW__use_result_of_mprotect_readwrite;
+pub mod p_HeapBytesPagePlusSpare__LockedRO__read_as_slice;
+pub mod p_HeapBytesPagePlusSpare__LockedRO__read_deref;
+pub mod p_HeapBytesPagePlusSpare__LockedRO__read_as_ref;
+pub mod p_HeapBytesPagePlusSpare__LockedRO__read_len;
+pub mod p_HeapBytesPagePlusSpare__LockedRO__read_index;
+pub mod p_HeapBytesPagePlusSpare__LockedRO__read_range;
+pub mod p_HeapBytesPagePlusSpare__LockedRO__clone;
+pub mod p_HeapBytesPagePlusSpare__LockedRO__t_munlock;
+pub mod p_HeapBytesPagePlusSpare__LockedRO__t_mprotect_readonly;
+pub mod p_HeapBytesPagePlusSpare__LockedRO__t_mprotect_readwrite;
+pub mod p_HeapBytesPagePlusSpare__LockedRO__use_result_of_munlock;
+pub mod p_HeapBytesPagePlusSpare__LockedRO__use_result_of_mprotect_readonly;
+pub mod p_HeapBytesPagePlusSpare__LockedRO__use_result_of_mprotect_readwrite;
+pub mod p_HeapBytesPagePlusSpare__UnlockedRW__read_as_slice;
+pub mod p_HeapBytesPagePlusSpare__UnlockedRW__read_deref;
+pub mod p_HeapBytesPagePlusSpare__UnlockedRW__read_as_ref;
+pub mod p_HeapBytesPagePlusSpare__UnlockedRW__read_len;
+pub mod p_HeapBytesPagePlusSpare__UnlockedRW__read_index;
+pub mod p_HeapBytesPagePlusSpare__UnlockedRW__read_range;
+pub mod p_HeapBytesPagePlusSpare__UnlockedRW__write_as_mut_slice;
+pub mod p_HeapBytesPagePlusSpare__UnlockedRW__write_deref_mut;
+pub mod p_HeapBytesPagePlusSpare__UnlockedRW__write_as_mut;
+pub mod p_HeapBytesPagePlusSpare__UnlockedRW__write_copy_from_slice;
+pub mod p_HeapBytesPagePlusSpare__UnlockedRW__write_index;
+pub mod p_HeapBytesPagePlusSpare__UnlockedRW__write_fill;
+pub mod p_HeapBytesPagePlusSpare__UnlockedRW__resize;
+pub mod p_HeapBytesPagePlusSpare__UnlockedRW__clone;
+pub mod p_HeapBytesPagePlusSpare__UnlockedRW__t_mlock;
+pub mod p_HeapBytesPagePlusSpare__UnlockedRW__t_munlock;
+pub mod p_HeapBytesPagePlusSpare__UnlockedRW__t_mprotect_readonly;
+pub mod p_HeapBytesPagePlusSpare__UnlockedRW__t_mprotect_readwrite;
+pub mod p_HeapBytesPagePlusSpare__UnlockedRW__t_mprotect_noaccess;
+pub mod p_HeapBytesPagePlusSpare__UnlockedRW__use_result_of_munlock;
+pub mod p_HeapBytesPagePlusSpare__UnlockedRW__use_result_of_mprotect_readonly;
+pub mod p_HeapBytesPagePlusSpare__UnlockedRW__use_result_of_mprotect_readwrite;
+pub mod p_HeapBytesPagePlusSpare__UnlockedRW__use_result_of_mlock;
+pub mod p_HeapBytesPagePlusSpare__UnlockedRW__use_result_of_mprotect_noaccess;
+pub mod p_HeapBytesPagePlusSpare__UnlockedRO__read_as_slice;
+pub mod p_HeapBytesPagePlusSpare__UnlockedRO__read_deref;
+pub mod p_HeapBytesPagePlusSpare__UnlockedRO__read_as_ref;
+pub mod p_HeapBytesPagePlusSpare__UnlockedRO__read_len;
+pub mod p_HeapBytesPagePlusSpare__UnlockedRO__read_index;
+pub mod p_HeapBytesPagePlusSpare__UnlockedRO__read_range;
+pub mod p_HeapBytesPagePlusSpare__UnlockedRO__clone;
+pub mod p_HeapBytesPagePlusSpare__UnlockedRO__t_mlock;
+pub mod p_HeapBytesPagePlusSpare__UnlockedRO__t_munlock;
+pub mod p_HeapBytesPagePlusSpare__UnlockedRO__t_mprotect_readonly;
+pub mod p_HeapBytesPagePlusSpare__UnlockedRO__t_mprotect_readwrite;
+pub mod p_HeapBytesPagePlusSpare__UnlockedRO__t_mprotect_noaccess;
+pub mod p_HeapBytesPagePlusSpare__UnlockedRO__use_result_of_munlock;
+pub mod p_HeapBytesPagePlusSpare__UnlockedRO__use_result_of_mprotect_readonly;
+pub mod p_HeapBytesPagePlusSpare__UnlockedRO__use_result_of_mprotect_readwrite;
+pub mod p_HeapBytesPagePlusSpare__UnlockedRO__use_result_of_mlock;
+pub mod p_HeapBytesPagePlusSpare__UnlockedRO__use_result_of_mprotect_noaccess;
+pub mod p_HeapBytesPagePlusSpare__UnlockedNA__t_munlock;
+pub mod p_HeapBytesPagePlusSpare__UnlockedNA__t_mprotect_readonly;
+pub mod p_HeapBytesPagePlusSpare__UnlockedNA__t_mprotect_readwrite;
+pub mod p_HeapBytesPagePlusSpare__UnlockedNA__t_mprotect_noaccess;
+pub mod p_HeapBytesPagePlusSpare__UnlockedNA__use_result_of_munlock;
+pub mod p_HeapBytesPagePlusSpare__UnlockedNA__use_result_of_mprotect_readonly;
+pub mod p_HeapBytesPagePlusSpare__UnlockedNA__use_result_of_mprotect_readwrite;
+pub mod p_HeapBytesPagePlusSpare__UnlockedNA__use_result_of_mprotect_noaccess;
 pub mod p_stream__Push__push;
 pub mod p_stream__Push__push_to_vec;
 pub mod p_stream__Pull__pull;
@@ -193,6 +359,30 @@ pub mod p_HeapByteArray32__UnlockedRW__view_iter;
 pub mod p_HeapByteArray32__UnlockedRO__view_to_vec;
 pub mod p_HeapByteArray32__UnlockedRO__view_iter;
 pub mod p_HeapByteArray32__UnlockedNA__t_mlock;
+pub mod p_HeapByteArray4096__LockedRW__view_serde_json;
+pub mod p_HeapByteArray4096__LockedRW__view_bincode;
+pub mod p_HeapByteArray4096__LockedRW__view_to_vec;
+pub mod p_HeapByteArray4096__LockedRW__view_iter;
+pub mod p_HeapByteArray4096__LockedRO__view_to_vec;
+pub mod p_HeapByteArray4096__LockedRO__view_iter;
+pub mod p_HeapByteArray4096__UnlockedRW__view_to_vec;
+pub mod p_HeapByteArray4096__UnlockedRW__view_iter;
+pub mod p_HeapByteArray4096__UnlockedRO__view_to_vec;
+pub mod p_HeapByteArray4096__UnlockedRO__view_iter;
+pub mod p_HeapByteArray4096__UnlockedNA__t_mlock;
+pub mod p_HeapBytesPagePlusSpare__LockedRW__view_serde_json;
+pub mod p_HeapBytesPagePlusSpare__LockedRW__view_bincode;
+pub mod p_HeapBytesPagePlusSpare__LockedRW__view_to_vec;
+pub mod p_HeapBytesPagePlusSpare__LockedRW__view_iter;
+pub mod p_HeapBytesPagePlusSpare__LockedRO__view_serde_json;
+pub mod p_HeapBytesPagePlusSpare__LockedRO__view_bincode;
+pub mod p_HeapBytesPagePlusSpare__LockedRO__view_to_vec;
+pub mod p_HeapBytesPagePlusSpare__LockedRO__view_iter;
+pub mod p_HeapBytesPagePlusSpare__UnlockedRW__view_to_vec;
+pub mod p_HeapBytesPagePlusSpare__UnlockedRW__view_iter;
+pub mod p_HeapBytesPagePlusSpare__UnlockedRO__view_to_vec;
+pub mod p_HeapBytesPagePlusSpare__UnlockedRO__view_iter;
+pub mod p_HeapBytesPagePlusSpare__UnlockedNA__t_mlock;
 
 const PROGS: &[(&str, fn())] = &[
     ("HeapBytes__LockedRW__read_as_slice", p_HeapBytes__LockedRW__read_as_slice::run as fn()),
@@ -361,6 +551,172 @@ const PROGS: &[(&str, fn())] = &[
     ("HeapByteArray32__UnlockedNA__use_result_of_mprotect_readonly", p_HeapByteArray32__UnlockedNA__use_result_of_mprotect_readonly::run as fn()),
     ("HeapByteArray32__UnlockedNA__use_result_of_mprotect_readwrite", p_HeapByteArray32__UnlockedNA__use_result_of_mprotect_readwrite::run as fn()),
     ("HeapByteArray32__UnlockedNA__use_result_of_mprotect_noaccess", p_HeapByteArray32__UnlockedNA__use_result_of_mprotect_noaccess::run as fn()),
+    ("HeapByteArray4096__LockedRW__read_as_slice", p_HeapByteArray4096__LockedRW__read_as_slice::run as fn()),
+    ("HeapByteArray4096__LockedRW__read_deref", p_HeapByteArray4096__LockedRW__read_deref::run as fn()),
+    ("HeapByteArray4096__LockedRW__read_as_ref", p_HeapByteArray4096__LockedRW__read_as_ref::run as fn()),
+    ("HeapByteArray4096__LockedRW__read_len", p_HeapByteArray4096__LockedRW__read_len::run as fn()),
+    ("HeapByteArray4096__LockedRW__read_index", p_HeapByteArray4096__LockedRW__read_index::run as fn()),
+    ("HeapByteArray4096__LockedRW__read_range", p_HeapByteArray4096__LockedRW__read_range::run as fn()),
+    ("HeapByteArray4096__LockedRW__write_as_mut_slice", p_HeapByteArray4096__LockedRW__write_as_mut_slice::run as fn()),
+    ("HeapByteArray4096__LockedRW__write_deref_mut", p_HeapByteArray4096__LockedRW__write_deref_mut::run as fn()),
+    ("HeapByteArray4096__LockedRW__write_as_mut", p_HeapByteArray4096__LockedRW__write_as_mut::run as fn()),
+    ("HeapByteArray4096__LockedRW__write_copy_from_slice", p_HeapByteArray4096__LockedRW__write_copy_from_slice::run as fn()),
+    ("HeapByteArray4096__LockedRW__write_index", p_HeapByteArray4096__LockedRW__write_index::run as fn()),
+    ("HeapByteArray4096__LockedRW__write_fill", p_HeapByteArray4096__LockedRW__write_fill::run as fn()),
+    ("HeapByteArray4096__LockedRW__array_as_array", p_HeapByteArray4096__LockedRW__array_as_array::run as fn()),
+    ("HeapByteArray4096__LockedRW__array_as_mut_array", p_HeapByteArray4096__LockedRW__array_as_mut_array::run as fn()),
+    ("HeapByteArray4096__LockedRW__t_munlock", p_HeapByteArray4096__LockedRW__t_munlock::run as fn()),
+    ("HeapByteArray4096__LockedRW__t_mprotect_readonly", p_HeapByteArray4096__LockedRW__t_mprotect_readonly::run as fn()),
+    ("HeapByteArray4096__LockedRW__t_mprotect_readwrite", p_HeapByteArray4096__LockedRW__t_mprotect_readwrite::run as fn()),
+    ("HeapByteArray4096__LockedRW__use_result_of_munlock", p_HeapByteArray4096__LockedRW__use_result_of_munlock::run as fn()),
+    ("HeapByteArray4096__LockedRW__use_result_of_mprotect_readonly", p_HeapByteArray4096__LockedRW__use_result_of_mprotect_readonly::run as fn()),
+    ("HeapByteArray4096__LockedRW__use_result_of_mprotect_readwrite", p_HeapByteArray4096__LockedRW__use_result_of_mprotect_readwrite::run as fn()),
+    ("HeapByteArray4096__LockedRO__read_as_slice", p_HeapByteArray4096__LockedRO__read_as_slice::run as fn()),
+    ("HeapByteArray4096__LockedRO__read_deref", p_HeapByteArray4096__LockedRO__read_deref::run as fn()),
+    ("HeapByteArray4096__LockedRO__read_as_ref", p_HeapByteArray4096__LockedRO__read_as_ref::run as fn()),
+    ("HeapByteArray4096__LockedRO__read_len", p_HeapByteArray4096__LockedRO__read_len::run as fn()),
+    ("HeapByteArray4096__LockedRO__read_index", p_HeapByteArray4096__LockedRO__read_index::run as fn()),
+    ("HeapByteArray4096__LockedRO__read_range", p_HeapByteArray4096__LockedRO__read_range::run as fn()),
+    ("HeapByteArray4096__LockedRO__array_as_array", p_HeapByteArray4096__LockedRO__array_as_array::run as fn()),
+    ("HeapByteArray4096__LockedRO__t_munlock", p_HeapByteArray4096__LockedRO__t_munlock::run as fn()),
+    ("HeapByteArray4096__LockedRO__t_mprotect_readonly", p_HeapByteArray4096__LockedRO__t_mprotect_readonly::run as fn()),
+    ("HeapByteArray4096__LockedRO__t_mprotect_readwrite", p_HeapByteArray4096__LockedRO__t_mprotect_readwrite::run as fn()),
+    ("HeapByteArray4096__LockedRO__use_result_of_munlock", p_HeapByteArray4096__LockedRO__use_result_of_munlock::run as fn()),
+    ("HeapByteArray4096__LockedRO__use_result_of_mprotect_readonly", p_HeapByteArray4096__LockedRO__use_result_of_mprotect_readonly::run as fn()),
+    ("HeapByteArray4096__LockedRO__use_result_of_mprotect_readwrite", p_HeapByteArray4096__LockedRO__use_result_of_mprotect_readwrite::run as fn()),
+    ("HeapByteArray4096__UnlockedRW__read_as_slice", p_HeapByteArray4096__UnlockedRW__read_as_slice::run as fn()),
+    ("HeapByteArray4096__UnlockedRW__read_deref", p_HeapByteArray4096__UnlockedRW__read_deref::run as fn()),
+    ("HeapByteArray4096__UnlockedRW__read_as_ref", p_HeapByteArray4096__UnlockedRW__read_as_ref::run as fn()),
+    ("HeapByteArray4096__UnlockedRW__read_len", p_HeapByteArray4096__UnlockedRW__read_len::run as fn()),
+    ("HeapByteArray4096__UnlockedRW__read_index", p_HeapByteArray4096__UnlockedRW__read_index::run as fn()),
+    ("HeapByteArray4096__UnlockedRW__read_range", p_HeapByteArray4096__UnlockedRW__read_range::run as fn()),
+    ("HeapByteArray4096__UnlockedRW__write_as_mut_slice", p_HeapByteArray4096__UnlockedRW__write_as_mut_slice::run as fn()),
+    ("HeapByteArray4096__UnlockedRW__write_deref_mut", p_HeapByteArray4096__UnlockedRW__write_deref_mut::run as fn()),
+    ("HeapByteArray4096__UnlockedRW__write_as_mut", p_HeapByteArray4096__UnlockedRW__write_as_mut::run as fn()),
+    ("HeapByteArray4096__UnlockedRW__write_copy_from_slice", p_HeapByteArray4096__UnlockedRW__write_copy_from_slice::run as fn()),
+    ("HeapByteArray4096__UnlockedRW__write_index", p_HeapByteArray4096__UnlockedRW__write_index::run as fn()),
+    ("HeapByteArray4096__UnlockedRW__write_fill", p_HeapByteArray4096__UnlockedRW__write_fill::run as fn()),
+    ("HeapByteArray4096__UnlockedRW__array_as_array", p_HeapByteArray4096__UnlockedRW__array_as_array::run as fn()),
+    ("HeapByteArray4096__UnlockedRW__array_as_mut_array", p_HeapByteArray4096__UnlockedRW__array_as_mut_array::run as fn()),
+    ("HeapByteArray4096__UnlockedRW__clone", p_HeapByteArray4096__UnlockedRW__clone::run as fn()),
+    ("HeapByteArray4096__UnlockedRW__t_mlock", p_HeapByteArray4096__UnlockedRW__t_mlock::run as fn()),
+    ("HeapByteArray4096__UnlockedRW__t_munlock", p_HeapByteArray4096__UnlockedRW__t_munlock::run as fn()),
+    ("HeapByteArray4096__UnlockedRW__t_mprotect_readonly", p_HeapByteArray4096__UnlockedRW__t_mprotect_readonly::run as fn()),
+    ("HeapByteArray4096__UnlockedRW__t_mprotect_readwrite", p_HeapByteArray4096__UnlockedRW__t_mprotect_readwrite::run as fn()),
+    ("HeapByteArray4096__UnlockedRW__t_mprotect_noaccess", p_HeapByteArray4096__UnlockedRW__t_mprotect_noaccess::run as fn()),
+    ("HeapByteArray4096__UnlockedRW__use_result_of_munlock", p_HeapByteArray4096__UnlockedRW__use_result_of_munlock::run as fn()),
+    ("HeapByteArray4096__UnlockedRW__use_result_of_mprotect_readonly", p_HeapByteArray4096__UnlockedRW__use_result_of_mprotect_readonly::run as fn()),
+    ("HeapByteArray4096__UnlockedRW__use_result_of_mprotect_readwrite", p_HeapByteArray4096__UnlockedRW__use_result_of_mprotect_readwrite::run as fn()),
+    ("HeapByteArray4096__UnlockedRW__use_result_of_mlock", p_HeapByteArray4096__UnlockedRW__use_result_of_mlock::run as fn()),
+    ("HeapByteArray4096__UnlockedRW__use_result_of_mprotect_noaccess", p_HeapByteArray4096__UnlockedRW__use_result_of_mprotect_noaccess::run as fn()),
+    ("HeapByteArray4096__UnlockedRO__read_as_slice", p_HeapByteArray4096__UnlockedRO__read_as_slice::run as fn()),
+    ("HeapByteArray4096__UnlockedRO__read_deref", p_HeapByteArray4096__UnlockedRO__read_deref::run as fn()),
+    ("HeapByteArray4096__UnlockedRO__read_as_ref", p_HeapByteArray4096__UnlockedRO__read_as_ref::run as fn()),
+    ("HeapByteArray4096__UnlockedRO__read_len", p_HeapByteArray4096__UnlockedRO__read_len::run as fn()),
+    ("HeapByteArray4096__UnlockedRO__read_index", p_HeapByteArray4096__UnlockedRO__read_index::run as fn()),
+    ("HeapByteArray4096__UnlockedRO__read_range", p_HeapByteArray4096__UnlockedRO__read_range::run as fn()),
+    ("HeapByteArray4096__UnlockedRO__array_as_array", p_HeapByteArray4096__UnlockedRO__array_as_array::run as fn()),
+    ("HeapByteArray4096__UnlockedRO__clone", p_HeapByteArray4096__UnlockedRO__clone::run as fn()),
+    ("HeapByteArray4096__UnlockedRO__t_mlock", p_HeapByteArray4096__UnlockedRO__t_mlock::run as fn()),
+    ("HeapByteArray4096__UnlockedRO__t_munlock", p_HeapByteArray4096__UnlockedRO__t_munlock::run as fn()),
+    ("HeapByteArray4096__UnlockedRO__t_mprotect_readonly", p_HeapByteArray4096__UnlockedRO__t_mprotect_readonly::run as fn()),
+    ("HeapByteArray4096__UnlockedRO__t_mprotect_readwrite", p_HeapByteArray4096__UnlockedRO__t_mprotect_readwrite::run as fn()),
+    ("HeapByteArray4096__UnlockedRO__t_mprotect_noaccess", p_HeapByteArray4096__UnlockedRO__t_mprotect_noaccess::run as fn()),
+    ("HeapByteArray4096__UnlockedRO__use_result_of_munlock", p_HeapByteArray4096__UnlockedRO__use_result_of_munlock::run as fn()),
+    ("HeapByteArray4096__UnlockedRO__use_result_of_mprotect_readonly", p_HeapByteArray4096__UnlockedRO__use_result_of_mprotect_readonly::run as fn()),
+    ("HeapByteArray4096__UnlockedRO__use_result_of_mprotect_readwrite", p_HeapByteArray4096__UnlockedRO__use_result_of_mprotect_readwrite::run as fn()),
+    ("HeapByteArray4096__UnlockedRO__use_result_of_mlock", p_HeapByteArray4096__UnlockedRO__use_result_of_mlock::run as fn()),
+    ("HeapByteArray4096__UnlockedRO__use_result_of_mprotect_noaccess", p_HeapByteArray4096__UnlockedRO__use_result_of_mprotect_noaccess::run as fn()),
+    ("HeapByteArray4096__UnlockedNA__t_munlock", p_HeapByteArray4096__UnlockedNA__t_munlock::run as fn()),
+    ("HeapByteArray4096__UnlockedNA__t_mprotect_readonly", p_HeapByteArray4096__UnlockedNA__t_mprotect_readonly::run as fn()),
+    ("HeapByteArray4096__UnlockedNA__t_mprotect_readwrite", p_HeapByteArray4096__UnlockedNA__t_mprotect_readwrite::run as fn()),
+    ("HeapByteArray4096__UnlockedNA__t_mprotect_noaccess", p_HeapByteArray4096__UnlockedNA__t_mprotect_noaccess::run as fn()),
+    ("HeapByteArray4096__UnlockedNA__use_result_of_munlock", p_HeapByteArray4096__UnlockedNA__use_result_of_munlock::run as fn()),
+    ("HeapByteArray4096__UnlockedNA__use_result_of_mprotect_readonly", p_HeapByteArray4096__UnlockedNA__use_result_of_mprotect_readonly::run as fn()),
+    ("HeapByteArray4096__UnlockedNA__use_result_of_mprotect_readwrite", p_HeapByteArray4096__UnlockedNA__use_result_of_mprotect_readwrite::run as fn()),
+    ("HeapByteArray4096__UnlockedNA__use_result_of_mprotect_noaccess", p_HeapByteArray4096__UnlockedNA__use_result_of_mprotect_noaccess::run as fn()),
+    ("HeapBytesPagePlusSpare__LockedRW__read_as_slice", p_HeapBytesPagePlusSpare__LockedRW__read_as_slice::run as fn()),
+    ("HeapBytesPagePlusSpare__LockedRW__read_deref", p_HeapBytesPagePlusSpare__LockedRW__read_deref::run as fn()),
+    ("HeapBytesPagePlusSpare__LockedRW__read_as_ref", p_HeapBytesPagePlusSpare__LockedRW__read_as_ref::run as fn()),
+    ("HeapBytesPagePlusSpare__LockedRW__read_len", p_HeapBytesPagePlusSpare__LockedRW__read_len::run as fn()),
+    ("HeapBytesPagePlusSpare__LockedRW__read_index", p_HeapBytesPagePlusSpare__LockedRW__read_index::run as fn()),
+    ("HeapBytesPagePlusSpare__LockedRW__read_range", p_HeapBytesPagePlusSpare__LockedRW__read_range::run as fn()),
+    ("HeapBytesPagePlusSpare__LockedRW__write_as_mut_slice", p_HeapBytesPagePlusSpare__LockedRW__write_as_mut_slice::run as fn()),
+    ("HeapBytesPagePlusSpare__LockedRW__write_deref_mut", p_HeapBytesPagePlusSpare__LockedRW__write_deref_mut::run as fn()),
+    ("HeapBytesPagePlusSpare__LockedRW__write_as_mut", p_HeapBytesPagePlusSpare__LockedRW__write_as_mut::run as fn()),
+    ("HeapBytesPagePlusSpare__LockedRW__write_copy_from_slice", p_HeapBytesPagePlusSpare__LockedRW__write_copy_from_slice::run as fn()),
+    ("HeapBytesPagePlusSpare__LockedRW__write_index", p_HeapBytesPagePlusSpare__LockedRW__write_index::run as fn()),
+    ("HeapBytesPagePlusSpare__LockedRW__write_fill", p_HeapBytesPagePlusSpare__LockedRW__write_fill::run as fn()),
+    ("HeapBytesPagePlusSpare__LockedRW__resize", p_HeapBytesPagePlusSpare__LockedRW__resize::run as fn()),
+    ("HeapBytesPagePlusSpare__LockedRW__clone", p_HeapBytesPagePlusSpare__LockedRW__clone::run as fn()),
+    ("HeapBytesPagePlusSpare__LockedRW__t_munlock", p_HeapBytesPagePlusSpare__LockedRW__t_munlock::run as fn()),
+    ("HeapBytesPagePlusSpare__LockedRW__t_mprotect_readonly", p_HeapBytesPagePlusSpare__LockedRW__t_mprotect_readonly::run as fn()),
+    ("HeapBytesPagePlusSpare__LockedRW__t_mprotect_readwrite", p_HeapBytesPagePlusSpare__LockedRW__t_mprotect_readwrite::run as fn()),
+    ("HeapBytesPagePlusSpare__LockedRW__use_result_of_munlock", p_HeapBytesPagePlusSpare__LockedRW__use_result_of_munlock::run as fn()),
+    ("HeapBytesPagePlusSpare__LockedRW__use_result_of_mprotect_readonly", p_HeapBytesPagePlusSpare__LockedRW__use_result_of_mprotect_readonly::run as fn()),
+    ("HeapBytesPagePlusSpare__LockedRW__use_result_of_mprotect_readwrite", p_HeapBytesPagePlusSpare__LockedRW__use_result_of_mprotect_readwrite::run as fn()),
+    ("HeapBytesPagePlusSpare__LockedRO__read_as_slice", p_HeapBytesPagePlusSpare__LockedRO__read_as_slice::run as fn()),
+    ("HeapBytesPagePlusSpare__LockedRO__read_deref", p_HeapBytesPagePlusSpare__LockedRO__read_deref::run as fn()),
+    ("HeapBytesPagePlusSpare__LockedRO__read_as_ref", p_HeapBytesPagePlusSpare__LockedRO__read_as_ref::run as fn()),
+    ("HeapBytesPagePlusSpare__LockedRO__read_len", p_HeapBytesPagePlusSpare__LockedRO__read_len::run as fn()),
+    ("HeapBytesPagePlusSpare__LockedRO__read_index", p_HeapBytesPagePlusSpare__LockedRO__read_index::run as fn()),
+    ("HeapBytesPagePlusSpare__LockedRO__read_range", p_HeapBytesPagePlusSpare__LockedRO__read_range::run as fn()),
+    ("HeapBytesPagePlusSpare__LockedRO__clone", p_HeapBytesPagePlusSpare__LockedRO__clone::run as fn()),
+    ("HeapBytesPagePlusSpare__LockedRO__t_munlock", p_HeapBytesPagePlusSpare__LockedRO__t_munlock::run as fn()),
+    ("HeapBytesPagePlusSpare__LockedRO__t_mprotect_readonly", p_HeapBytesPagePlusSpare__LockedRO__t_mprotect_readonly::run as fn()),
+    ("HeapBytesPagePlusSpare__LockedRO__t_mprotect_readwrite", p_HeapBytesPagePlusSpare__LockedRO__t_mprotect_readwrite::run as fn()),
+    ("HeapBytesPagePlusSpare__LockedRO__use_result_of_munlock", p_HeapBytesPagePlusSpare__LockedRO__use_result_of_munlock::run as fn()),
+    ("HeapBytesPagePlusSpare__LockedRO__use_result_of_mprotect_readonly", p_HeapBytesPagePlusSpare__LockedRO__use_result_of_mprotect_readonly::run as fn()),
+    ("HeapBytesPagePlusSpare__LockedRO__use_result_of_mprotect_readwrite", p_HeapBytesPagePlusSpare__LockedRO__use_result_of_mprotect_readwrite::run as fn()),
+    ("HeapBytesPagePlusSpare__UnlockedRW__read_as_slice", p_HeapBytesPagePlusSpare__UnlockedRW__read_as_slice::run as fn()),
+    ("HeapBytesPagePlusSpare__UnlockedRW__read_deref", p_HeapBytesPagePlusSpare__UnlockedRW__read_deref::run as fn()),
+    ("HeapBytesPagePlusSpare__UnlockedRW__read_as_ref", p_HeapBytesPagePlusSpare__UnlockedRW__read_as_ref::run as fn()),
+    ("HeapBytesPagePlusSpare__UnlockedRW__read_len", p_HeapBytesPagePlusSpare__UnlockedRW__read_len::run as fn()),
+    ("HeapBytesPagePlusSpare__UnlockedRW__read_index", p_HeapBytesPagePlusSpare__UnlockedRW__read_index::run as fn()),
+    ("HeapBytesPagePlusSpare__UnlockedRW__read_range", p_HeapBytesPagePlusSpare__UnlockedRW__read_range::run as fn()),
+    ("HeapBytesPagePlusSpare__UnlockedRW__write_as_mut_slice", p_HeapBytesPagePlusSpare__UnlockedRW__write_as_mut_slice::run as fn()),
+    ("HeapBytesPagePlusSpare__UnlockedRW__write_deref_mut", p_HeapBytesPagePlusSpare__UnlockedRW__write_deref_mut::run as fn()),
+    ("HeapBytesPagePlusSpare__UnlockedRW__write_as_mut", p_HeapBytesPagePlusSpare__UnlockedRW__write_as_mut::run as fn()),
+    ("HeapBytesPagePlusSpare__UnlockedRW__write_copy_from_slice", p_HeapBytesPagePlusSpare__UnlockedRW__write_copy_from_slice::run as fn()),
+    ("HeapBytesPagePlusSpare__UnlockedRW__write_index", p_HeapBytesPagePlusSpare__UnlockedRW__write_index::run as fn()),
+    ("HeapBytesPagePlusSpare__UnlockedRW__write_fill", p_HeapBytesPagePlusSpare__UnlockedRW__write_fill::run as fn()),
+    ("HeapBytesPagePlusSpare__UnlockedRW__resize", p_HeapBytesPagePlusSpare__UnlockedRW__resize::run as fn()),
+    ("HeapBytesPagePlusSpare__UnlockedRW__clone", p_HeapBytesPagePlusSpare__UnlockedRW__clone::run as fn()),
+    ("HeapBytesPagePlusSpare__UnlockedRW__t_mlock", p_HeapBytesPagePlusSpare__UnlockedRW__t_mlock::run as fn()),
+    ("HeapBytesPagePlusSpare__UnlockedRW__t_munlock", p_HeapBytesPagePlusSpare__UnlockedRW__t_munlock::run as fn()),
+    ("HeapBytesPagePlusSpare__UnlockedRW__t_mprotect_readonly", p_HeapBytesPagePlusSpare__UnlockedRW__t_mprotect_readonly::run as fn()),
+    ("HeapBytesPagePlusSpare__UnlockedRW__t_mprotect_readwrite", p_HeapBytesPagePlusSpare__UnlockedRW__t_mprotect_readwrite::run as fn()),
+    ("HeapBytesPagePlusSpare__UnlockedRW__t_mprotect_noaccess", p_HeapBytesPagePlusSpare__UnlockedRW__t_mprotect_noaccess::run as fn()),
+    ("HeapBytesPagePlusSpare__UnlockedRW__use_result_of_munlock", p_HeapBytesPagePlusSpare__UnlockedRW__use_result_of_munlock::run as fn()),
+    ("HeapBytesPagePlusSpare__UnlockedRW__use_result_of_mprotect_readonly", p_HeapBytesPagePlusSpare__UnlockedRW__use_result_of_mprotect_readonly::run as fn()),
+    ("HeapBytesPagePlusSpare__UnlockedRW__use_result_of_mprotect_readwrite", p_HeapBytesPagePlusSpare__UnlockedRW__use_result_of_mprotect_readwrite::run as fn()),
+    ("HeapBytesPagePlusSpare__UnlockedRW__use_result_of_mlock", p_HeapBytesPagePlusSpare__UnlockedRW__use_result_of_mlock::run as fn()),
+    ("HeapBytesPagePlusSpare__UnlockedRW__use_result_of_mprotect_noaccess", p_HeapBytesPagePlusSpare__UnlockedRW__use_result_of_mprotect_noaccess::run as fn()),
+    ("HeapBytesPagePlusSpare__UnlockedRO__read_as_slice", p_HeapBytesPagePlusSpare__UnlockedRO__read_as_slice::run as fn()),
+    ("HeapBytesPagePlusSpare__UnlockedRO__read_deref", p_HeapBytesPagePlusSpare__UnlockedRO__read_deref::run as fn()),
+    ("HeapBytesPagePlusSpare__UnlockedRO__read_as_ref", p_HeapBytesPagePlusSpare__UnlockedRO__read_as_ref::run as fn()),
+    ("HeapBytesPagePlusSpare__UnlockedRO__read_len", p_HeapBytesPagePlusSpare__UnlockedRO__read_len::run as fn()),
+    ("HeapBytesPagePlusSpare__UnlockedRO__read_index", p_HeapBytesPagePlusSpare__UnlockedRO__read_index::run as fn()),
+    ("HeapBytesPagePlusSpare__UnlockedRO__read_range", p_HeapBytesPagePlusSpare__UnlockedRO__read_range::run as fn()),
+    ("HeapBytesPagePlusSpare__UnlockedRO__clone", p_HeapBytesPagePlusSpare__UnlockedRO__clone::run as fn()),
+    ("HeapBytesPagePlusSpare__UnlockedRO__t_mlock", p_HeapBytesPagePlusSpare__UnlockedRO__t_mlock::run as fn()),
+    ("HeapBytesPagePlusSpare__UnlockedRO__t_munlock", p_HeapBytesPagePlusSpare__UnlockedRO__t_munlock::run as fn()),
+    ("HeapBytesPagePlusSpare__UnlockedRO__t_mprotect_readonly", p_HeapBytesPagePlusSpare__UnlockedRO__t_mprotect_readonly::run as fn()),
+    ("HeapBytesPagePlusSpare__UnlockedRO__t_mprotect_readwrite", p_HeapBytesPagePlusSpare__UnlockedRO__t_mprotect_readwrite::run as fn()),
+    ("HeapBytesPagePlusSpare__UnlockedRO__t_mprotect_noaccess", p_HeapBytesPagePlusSpare__UnlockedRO__t_mprotect_noaccess::run as fn()),
+    ("HeapBytesPagePlusSpare__UnlockedRO__use_result_of_munlock", p_HeapBytesPagePlusSpare__UnlockedRO__use_result_of_munlock::run as fn()),
+    ("HeapBytesPagePlusSpare__UnlockedRO__use_result_of_mprotect_readonly", p_HeapBytesPagePlusSpare__UnlockedRO__use_result_of_mprotect_readonly::run as fn()),
+    ("HeapBytesPagePlusSpare__UnlockedRO__use_result_of_mprotect_readwrite", p_HeapBytesPagePlusSpare__UnlockedRO__use_result_of_mprotect_readwrite::run as fn()),
+    ("HeapBytesPagePlusSpare__UnlockedRO__use_result_of_mlock", p_HeapBytesPagePlusSpare__UnlockedRO__use_result_of_mlock::run as fn()),
+    ("HeapBytesPagePlusSpare__UnlockedRO__use_result_of_mprotect_noaccess", p_HeapBytesPagePlusSpare__UnlockedRO__use_result_of_mprotect_noaccess::run as fn()),
+    ("HeapBytesPagePlusSpare__UnlockedNA__t_munlock", p_HeapBytesPagePlusSpare__UnlockedNA__t_munlock::run as fn()),
+    ("HeapBytesPagePlusSpare__UnlockedNA__t_mprotect_readonly", p_HeapBytesPagePlusSpare__UnlockedNA__t_mprotect_readonly::run as fn()),
+    ("HeapBytesPagePlusSpare__UnlockedNA__t_mprotect_readwrite", p_HeapBytesPagePlusSpare__UnlockedNA__t_mprotect_readwrite::run as fn()),
+    ("HeapBytesPagePlusSpare__UnlockedNA__t_mprotect_noaccess", p_HeapBytesPagePlusSpare__UnlockedNA__t_mprotect_noaccess::run as fn()),
+    ("HeapBytesPagePlusSpare__UnlockedNA__use_result_of_munlock", p_HeapBytesPagePlusSpare__UnlockedNA__use_result_of_munlock::run as fn()),
+    ("HeapBytesPagePlusSpare__UnlockedNA__use_result_of_mprotect_readonly", p_HeapBytesPagePlusSpare__UnlockedNA__use_result_of_mprotect_readonly::run as fn()),
+    ("HeapBytesPagePlusSpare__UnlockedNA__use_result_of_mprotect_readwrite", p_HeapBytesPagePlusSpare__UnlockedNA__use_result_of_mprotect_readwrite::run as fn()),
+    ("HeapBytesPagePlusSpare__UnlockedNA__use_result_of_mprotect_noaccess", p_HeapBytesPagePlusSpare__UnlockedNA__use_result_of_mprotect_noaccess::run as fn()),
     ("stream__Push__push", p_stream__Push__push::run as fn()),
     ("stream__Push__push_to_vec", p_stream__Push__push_to_vec::run as fn()),
     ("stream__Pull__pull", p_stream__Pull__pull::run as fn()),
@@ -389,6 +745,30 @@ const PROGS: &[(&str, fn())] = &[
     ("HeapByteArray32__UnlockedRO__view_to_vec", p_HeapByteArray32__UnlockedRO__view_to_vec::run as fn()),
     ("HeapByteArray32__UnlockedRO__view_iter", p_HeapByteArray32__UnlockedRO__view_iter::run as fn()),
     ("HeapByteArray32__UnlockedNA__t_mlock", p_HeapByteArray32__UnlockedNA__t_mlock::run as fn()),
+    ("HeapByteArray4096__LockedRW__view_serde_json", p_HeapByteArray4096__LockedRW__view_serde_json::run as fn()),
+    ("HeapByteArray4096__LockedRW__view_bincode", p_HeapByteArray4096__LockedRW__view_bincode::run as fn()),
+    ("HeapByteArray4096__LockedRW__view_to_vec", p_HeapByteArray4096__LockedRW__view_to_vec::run as fn()),
+    ("HeapByteArray4096__LockedRW__view_iter", p_HeapByteArray4096__LockedRW__view_iter::run as fn()),
+    ("HeapByteArray4096__LockedRO__view_to_vec", p_HeapByteArray4096__LockedRO__view_to_vec::run as fn()),
+    ("HeapByteArray4096__LockedRO__view_iter", p_HeapByteArray4096__LockedRO__view_iter::run as fn()),
+    ("HeapByteArray4096__UnlockedRW__view_to_vec", p_HeapByteArray4096__UnlockedRW__view_to_vec::run as fn()),
+    ("HeapByteArray4096__UnlockedRW__view_iter", p_HeapByteArray4096__UnlockedRW__view_iter::run as fn()),
+    ("HeapByteArray4096__UnlockedRO__view_to_vec", p_HeapByteArray4096__UnlockedRO__view_to_vec::run as fn()),
+    ("HeapByteArray4096__UnlockedRO__view_iter", p_HeapByteArray4096__UnlockedRO__view_iter::run as fn()),
+    ("HeapByteArray4096__UnlockedNA__t_mlock", p_HeapByteArray4096__UnlockedNA__t_mlock::run as fn()),
+    ("HeapBytesPagePlusSpare__LockedRW__view_serde_json", p_HeapBytesPagePlusSpare__LockedRW__view_serde_json::run as fn()),
+    ("HeapBytesPagePlusSpare__LockedRW__view_bincode", p_HeapBytesPagePlusSpare__LockedRW__view_bincode::run as fn()),
+    ("HeapBytesPagePlusSpare__LockedRW__view_to_vec", p_HeapBytesPagePlusSpare__LockedRW__view_to_vec::run as fn()),
+    ("HeapBytesPagePlusSpare__LockedRW__view_iter", p_HeapBytesPagePlusSpare__LockedRW__view_iter::run as fn()),
+    ("HeapBytesPagePlusSpare__LockedRO__view_serde_json", p_HeapBytesPagePlusSpare__LockedRO__view_serde_json::run as fn()),
+    ("HeapBytesPagePlusSpare__LockedRO__view_bincode", p_HeapBytesPagePlusSpare__LockedRO__view_bincode::run as fn()),
+    ("HeapBytesPagePlusSpare__LockedRO__view_to_vec", p_HeapBytesPagePlusSpare__LockedRO__view_to_vec::run as fn()),
+    ("HeapBytesPagePlusSpare__LockedRO__view_iter", p_HeapBytesPagePlusSpare__LockedRO__view_iter::run as fn()),
+    ("HeapBytesPagePlusSpare__UnlockedRW__view_to_vec", p_HeapBytesPagePlusSpare__UnlockedRW__view_to_vec::run as fn()),
+    ("HeapBytesPagePlusSpare__UnlockedRW__view_iter", p_HeapBytesPagePlusSpare__UnlockedRW__view_iter::run as fn()),
+    ("HeapBytesPagePlusSpare__UnlockedRO__view_to_vec", p_HeapBytesPagePlusSpare__UnlockedRO__view_to_vec::run as fn()),
+    ("HeapBytesPagePlusSpare__UnlockedRO__view_iter", p_HeapBytesPagePlusSpare__UnlockedRO__view_iter::run as fn()),
+    ("HeapBytesPagePlusSpare__UnlockedNA__t_mlock", p_HeapBytesPagePlusSpare__UnlockedNA__t_mlock::run as fn()),
 ];
 
 fn main() {
